@@ -1,4 +1,4 @@
-import CollectionsC.Proofs.PTSTIter
+import CollectionsC.Proofs.PTSTHistory
 import CollectionsC.Properties.C11
 /-! # C11 at pointer level — the ternary search trie as a heap of nodes with raw links
 
@@ -28,13 +28,23 @@ loop of `remove_eow_node`, `remove_all`, and the iterator's pointer comparisons.
   the unlinking — are live nodes of the pruned heap and stand for the path iterator's position there, so all
   of `Proofs/TSTIter.lean` / `Properties/C08TST`, `C16TST` (nothing skipped, nothing twice) carries over.
 
+* **histories** (`Model/PTSTHistory.lean`: `POp`, `pstep`, `prun`, iterator sessions `piterOp` / `piterRun`; the
+  pointer level counts `add`'s allocator requests itself, `addNeeds`, and `Proofs/PTSTHistory.lean` proves that the
+  inductive `add` succeeds exactly when none of those requests is refused):
+  `pstep_refines`, `phistory_refines` — from any well-formed heap, every history, every key, every refusal schedule:
+  call-by-call the results of the inductive model, `absT` of the final heap is the inductive final state, every
+  reachable heap is `WF`; `new_phistory_refines_partial` (+ `…_nonempty_partial`) — from `new`, composed with
+  `C11.new_history_refines_partial`: the results of the ideal string map, with the X5 exclusion explicit, and the
+  exact allocator ledger (header + live heap nodes + entries); `phistory_ledger` — live blocks = nodes of the trie,
+  `destroy` frees each exactly once; `piter_program_refines` (+ `…_map_partial`) — any next / remove / query program:
+  the ideal cursor's statuses and values, saved node ids NULL or live after every prefix.
+
 **Only executed** (the Lean driver runs the pointer model alongside the inductive one; L3 compares the C
 library's node identities in allocation order, `parent` ids and iterator pointers after every operation, and
-the driver's `ptAgrees` flag checks `toNode` / sizes / heap count / path↔id agreement): the composition of
-these per-call theorems over whole histories at pointer level (the history theorems of `Properties/C11.lean`
-are about the inductive model; each step transfers by the commutation theorems here), `pathOf` (the dump
-helper that recovers a path by walking `parent`), and `iter_next` from positions that violate the iterator
-invariant (unreachable through the API). -/
+the driver's `ptAgrees` flag checks the agreement on the streams, the `scale` stream included): `pathOf` (the
+dump helper that recovers a path by walking `parent`), `iter_next` from positions that violate the iterator
+invariant (unreachable through the API), and the ORDER of `add`'s allocator requests (the pointer level counts them;
+which request is the entry block only matters for refusals in the inductive model's ledger, `Model/TST.lean`). -/
 namespace CC.Properties.C11PTST
 open CC CC.TST CC.PTST
 
@@ -449,5 +459,380 @@ example : (PTST.iterNext demo (PTST.iterInit demo)).1 = .ok ∧
   rw [ha] at a1 a3 c1 c3
   obtain ⟨b1, b2, _⟩ := a3 e1
   exact ⟨by rw [a1, e1], b1, by rw [b2, e2], by rw [c1, e3], by rw [(c3 e3).2.1, e4]⟩
+
+/-! ## histories: `pstep` / `prun` (`Model/PTSTHistory.lean`) against `Table.step` / `Table.run` -/
+
+local macro "triv" : tactic => `(tactic| first | rfl | trivial | simp)
+
+/-- the saved node pointers of a related iterator are NULL or live nodes -/
+theorem iterRel_live (st : PT) (pit : PIter) (it : Iter) (todo : List (Path × Entry)) (hrel : IterRel st pit it)
+    (hok : IterOk (toNode st) it todo) :
+    (pit.cur = 0 ∨ st.heap.has pit.cur = true) ∧ (pit.next = 0 ∨ st.heap.has pit.next = true) := by
+  obtain ⟨t, hr, rfl⟩ := hrel
+  rw [hr.toNode] at hok
+  obtain ⟨v1, v2⟩ := iterOk_valid t hr.rep hr.nodup it todo hok
+  have key : ∀ a : Option Path, ValidP t a → idAt t a = 0 ∨ st.heap.has (idAt t a) = true := by
+    intro a ha
+    cases a with
+    | none => left; rfl
+    | some q => right; rw [hr.dom]; exact INode.rid_sub_mem t q ha
+  exact ⟨key _ v1, key _ v2⟩
+
+/-- **one call of an iterator session**: same result, the states stay related, the iterator invariant goes on -/
+theorem piterOp_refines (st : PT) (tr : Triple) (h : WF cmp st) (pit : PIter) (it : Iter)
+    (todo : List (Path × Entry)) (op : Spec.StrMap.IOp) (mem : Mem) (hrel : IterRel st pit it)
+    (hok : IterOk (toNode st) it todo) (hcm : it.curMarked (toNode st)) :
+    (piterOp cmp st pit op).1 = ((absT st tr).iterOp cmp it op mem).1 ∧
+    absT (piterOp cmp st pit op).2.1 tr = ((absT st tr).iterOp cmp it op mem).2.1 ∧
+    WF cmp (piterOp cmp st pit op).2.1 ∧
+    IterRel (piterOp cmp st pit op).2.1 (piterOp cmp st pit op).2.2 ((absT st tr).iterOp cmp it op mem).2.2.1 ∧
+    ∃ todo', IterOk (toNode (piterOp cmp st pit op).2.1) ((absT st tr).iterOp cmp it op mem).2.2.1 todo' ∧
+      ((absT st tr).iterOp cmp it op mem).2.2.1.curMarked (toNode (piterOp cmp st pit op).2.1) := by
+  have hinv := wf_inv st tr h
+  -- the iterator invariant after the call: `Table.iterOp_struct` on a ledger that covers the table
+  let big : Mem := { live := (toNode st).owned + 1, liveLibc := (toNode st).owned + 1 }
+  have hbig : (absT st tr).Owns big := by
+    unfold Table.Owns; cases tr <;> simp [absT, big, Mem.liveT]
+  obtain ⟨_, todo', s1, s2⟩ := Table.iterOp_struct (cmp := cmp) (absT st tr) it op big todo hinv hbig hok hcm
+  obtain ⟨_, i2, i3⟩ := Table.iterOp_indep (cmp := cmp) (absT st tr) it op mem big
+  rw [← i2, ← i3] at s1 s2
+  cases op with
+  | next =>
+    obtain ⟨c1, c2, c3⟩ := iter_next_commutes st tr pit it todo mem hrel hok
+    have hk := iterNext_ok (absT st tr) it mem todo hok
+    simp only [piterOp, Table.iterOp] at s1 s2 ⊢
+    refine ⟨?_, by triv, h, c2, todo', s1, s2⟩
+    rw [c1]
+    by_cases hst : (iterNext (absT st tr) it mem).st = .ok
+    · obtain ⟨_, d2, _⟩ := c3 hst
+      simp only [hst, if_true, d2]
+    · have hnone : (iterNext (absT st tr) it mem).out = none := by
+        cases todo with
+        | nil => exact hk.2.2.2.1
+        | cons x tl => exact absurd hk.2.2.1 hst
+      simp only [hst, if_false, hnone, Option.map_none]
+  | remove w =>
+    simp only [piterOp, Table.iterOp] at s1 s2 ⊢
+    obtain ⟨t, hr, rfl⟩ := hrel
+    have hok' := hok; rw [hr.toNode] at hok'
+    have hv := iterOk_valid t hr.rep hr.nodup it todo hok'
+    by_cases hin : it.cur = none ∨ it.adv = true
+    · have hP : ((absIt t it).cur = 0 ∨ (absIt t it).adv = true) := by
+        rcases hin with hc | ha
+        · left; simp [absIt, hc]
+        · right; exact ha
+      rw [iterRemove_inert (absT st tr) it w mem hin] at s1 s2 ⊢
+      simp only [hP, if_true]
+      obtain ⟨t0, hr0, q1, q2, q3⟩ := h
+      exact ⟨by triv, by triv, ⟨t0, ⟨hr0.root, hr0.rep, hr0.nodup, hr0.fresh, hr0.count, hr0.dom⟩, q1, q2, q3⟩,
+        ⟨t, ⟨hr.root, hr.rep, hr.nodup, hr.fresh, hr.count, hr.dom⟩, by triv⟩, todo', s1, s2⟩
+    · have hadv : it.adv = false := by
+        cases ha : it.adv with
+        | false => rfl
+        | true => exact absurd (Or.inr ha) hin
+      cases hcur : it.cur with
+      | none => exact absurd (Or.inl hcur) hin
+      | some p =>
+        obtain ⟨e, hd⟩ := hcm p hcur
+        have hat : IterAt (toNode st) it todo := by
+          rcases hok with ⟨_, hh⟩ | ⟨hh, _⟩
+          · exact hh
+          · rw [hadv] at hh; cases hh
+        have hp : t.sub p ≠ .nil := by have := hv.1; rw [hcur] at this; exact this
+        have hx0 : (t.sub p).rid ≠ 0 := hr.rep.ids_ne _ (INode.rid_sub_mem t p hp)
+        have hP : ¬ ((absIt t it).cur = 0 ∨ (absIt t it).adv = true) := by
+          simp [absIt, hcur, hadv, hx0]
+        obtain ⟨r1, r2, r3, r4, r5⟩ := iter_remove_commutes st tr h (absIt t it) it w mem todo p e ⟨t, hr, rfl⟩ hat hadv hcur hd
+        obtain ⟨k1, k2, _⟩ := iterRemove_ok (absT st tr) it w mem todo p e hat hadv hcur hd
+        have hdat : (st.heap.get (absIt t it).cur).data = some e := by
+          have := (iterStep_corr t hr.rep hr.nodup p none trivial hp).2.2.2
+          simp only [absIt, hcur, idAt_some]
+          rw [this, ← INode.erase_data, INode.erase_sub, ← hr.toNode]; exact hd
+        simp only [hP, if_false, hdat, Option.map_some]
+        have hroot : toNode (PTST.iterRemove st (absIt t it)).1 = (TST.iterRemove (absT st tr) it w mem).2.2.1.root :=
+          congrArg Table.root r1
+        refine ⟨?_, r1, r2, r3, todo', by rw [hroot]; exact s1, by rw [hroot]; exact s2⟩
+        rw [k1, k2]
+  | get k =>
+    simp only [piterOp, Table.iterOp] at s1 s2 ⊢
+    obtain ⟨g1, g2⟩ := get_commutes st tr h k
+    refine ⟨?_, by triv, h, hrel, todo', s1, s2⟩
+    rw [g2]; cases PTST.get cmp st k <;> rfl
+  | contains k =>
+    simp only [piterOp, Table.iterOp] at s1 s2 ⊢
+    obtain ⟨g1, g2⟩ := get_commutes st tr h k
+    refine ⟨?_, by triv, h, hrel, todo', s1, s2⟩
+    simp only [Table.containsKey, g2]
+    cases PTST.get cmp st k <;> rfl
+  | size => exact ⟨rfl, rfl, h, hrel, todo', s1, s2⟩
+
+/-- **iterator program theorem at pointer level.**  Any program of `iter_next` / `iter_remove` / query calls on the
+heap returns, call by call, what the path iterator of the inductive model returns (hence, by
+`C11.iter_program_refines_partial`, exactly the statuses and values of the ideal cursor: each remaining key once, in
+order, `CC_ITER_END` when none is left); the final heap abstracts to the inductive final table and is well-formed;
+the saved `current_node` / `next_node` ids are NULL or live nodes after every prefix (the statement holds for every
+program, so for every prefix) -/
+theorem piter_program_refines (prog : List Spec.StrMap.IOp) : ∀ (st : PT) (tr : Triple) (pit : PIter) (it : Iter)
+    (todo : List (Path × Entry)) (mem : Mem), WF cmp st → IterRel st pit it → IterOk (toNode st) it todo →
+    it.curMarked (toNode st) →
+    (piterRun cmp st pit prog).1 = ((absT st tr).iterRun cmp it prog mem).1 ∧
+    absT (piterRun cmp st pit prog).2.1 tr = ((absT st tr).iterRun cmp it prog mem).2.1 ∧
+    WF cmp (piterRun cmp st pit prog).2.1 ∧
+    IterRel (piterRun cmp st pit prog).2.1 (piterRun cmp st pit prog).2.2 ((absT st tr).iterRun cmp it prog mem).2.2.1 ∧
+    (((piterRun cmp st pit prog).2.2.cur = 0 ∨ (piterRun cmp st pit prog).2.1.heap.has (piterRun cmp st pit prog).2.2.cur = true) ∧
+     ((piterRun cmp st pit prog).2.2.next = 0 ∨ (piterRun cmp st pit prog).2.1.heap.has (piterRun cmp st pit prog).2.2.next = true)) := by
+  induction prog with
+  | nil =>
+    intro st tr pit it todo mem h hrel hok hcm
+    exact ⟨rfl, rfl, h, hrel, iterRel_live st pit it todo hrel hok⟩
+  | cons op prog ih =>
+    intro st tr pit it todo mem h hrel hok hcm
+    obtain ⟨a1, a2, a3, a4, todo', a5, a6⟩ := piterOp_refines st tr h pit it todo op mem hrel hok hcm
+    have := ih (piterOp cmp st pit op).2.1 tr (piterOp cmp st pit op).2.2 ((absT st tr).iterOp cmp it op mem).2.2.1
+      todo' ((absT st tr).iterOp cmp it op mem).2.2.2 a3 a4 a5 a6
+    rw [a2] at this
+    simp only [piterRun, Table.iterRun]
+    exact ⟨by rw [a1, this.1], this.2.1, this.2.2.1, this.2.2.2.1, this.2.2.2.2⟩
+
+/-- a complete pass of the pointer iterator yields the entries of the inductive enumeration, in its order -/
+theorem iterAllLoop_refines (st : PT) (tr : Triple) : ∀ (n : Nat) (pit : PIter) (it : Iter) (todo : List (Path × Entry)),
+    IterRel st pit it → IterOk (toNode st) it todo → todo.length < n →
+    PTST.iterAllLoop st n pit = todo.map (·.2) := by
+  intro n
+  induction n with
+  | zero => intro pit it todo _ _ hl; omega
+  | succ n ih =>
+    intro pit it todo hrel hok hl
+    obtain ⟨c1, c2, c3⟩ := iter_next_commutes st tr pit it todo {} hrel hok
+    have hk := iterNext_ok (absT st tr) it {} todo hok
+    simp only [PTST.iterAllLoop]
+    cases todo with
+    | nil =>
+      simp only [] at hk
+      rw [c1, hk.2.2.1]; simp
+    | cons x tl =>
+      simp only [] at hk
+      obtain ⟨_, _, k1, k2, k3, _⟩ := hk
+      obtain ⟨_, d2, _⟩ := c3 k1
+      have hne : ¬ (PTST.iterNext st pit).1 = .iterEnd := by rw [c1, k1]; simp
+      simp only [hne, if_false, d2, k2]
+      rw [ih _ _ tl c2 k3 (by simp at hl; omega)]
+      rfl
+
+theorem iterAll_refines (st : PT) (tr : Triple) (h : WF cmp st) (mem : Mem) :
+    PTST.iterAll st = (TST.iterAll (absT st tr) mem).1 := by
+  obtain ⟨t, hr, _⟩ := id h
+  rw [iterAll_eq, ← entriesP_map_snd]
+  unfold PTST.iterAll
+  apply iterAllLoop_refines st tr _ _ _ _ (iter_init_commutes st tr h) (Or.inl ⟨rfl, iterInit_at (absT st tr)⟩)
+  show (toNode st).entriesP.length < st.fresh
+  rw [entriesP_length, hr.toNode]
+  have := marked_le_nodes t.erase
+  have := INode.erase_nodes t
+  have := hr.count
+  omega
+
+/-- **one operation of a history**: the pointer level returns what the inductive model returns, ends in the heap that
+abstracts to the inductive state, and stays well-formed — for every key (the empty one included: X5 is the same on
+both levels) and every refusal schedule (the pointer level counts `add`'s allocator requests itself) -/
+theorem pstep_refines (st : PT) (tr : Triple) (h : WF cmp st) (op : POp) (mem : Mem) :
+    (pstep tr cmp st op).1 = ((absT st tr).step cmp op mem).1 ∧
+    absT (pstep tr cmp st op).2 tr = ((absT st tr).step cmp op mem).2.1 ∧
+    WF cmp (pstep tr cmp st op).2 := by
+  cases op with
+  | add k v sched =>
+    obtain ⟨t, hr, _⟩ := id h
+    have hiff := Table.add_ok_iff cmp (absT st tr) k v (mem.begin sched)
+    have hneeds := addNeeds_eq cmp hr k
+    have hg : granted tr (addNeeds cmp st k) sched = (((absT st tr).add cmp k v (mem.begin sched)).1 == .ok) := by
+      have e : granted (absT st tr).triple (needsI cmp (absT st tr).root k) (mem.begin sched).sched =
+          granted tr (addNeeds cmp st k) sched := by
+        simp only [absT, hr.toNode, hneeds, Mem.begin]
+      rw [← e]
+      by_cases hok : ((absT st tr).add cmp k v (mem.begin sched)).1 = .ok
+      · rw [hiff.mp hok, hok]; rfl
+      · have : granted (absT st tr).triple (needsI cmp (absT st tr).root k) (mem.begin sched).sched = false := by
+          cases hh : granted (absT st tr).triple (needsI cmp (absT st tr).root k) (mem.begin sched).sched with
+          | false => rfl
+          | true => exact absurd (hiff.mpr hh) hok
+        rw [this]; simp [hok]
+    obtain ⟨a1, a2, _⟩ := add_commutes st tr h k v (mem.begin sched)
+    simp only [pstep, Table.step, hg]
+    refine ⟨?_, a1, a2⟩
+    by_cases hok : ((absT st tr).add cmp k v (mem.begin sched)).1 = .ok
+    · simp [hok]
+    · have := (C11.add_atomic (absT st tr) k v (mem.begin sched) hok).1
+      simp [this]
+  | get k =>
+    obtain ⟨g1, g2⟩ := get_commutes st tr h k
+    simp only [pstep, Table.step]
+    refine ⟨?_, by triv, h⟩
+    rw [g2]; cases PTST.get cmp st k <;> rfl
+  | contains k =>
+    obtain ⟨g1, g2⟩ := get_commutes st tr h k
+    simp only [pstep, Table.step]
+    refine ⟨?_, by triv, h⟩
+    simp only [Table.containsKey, g2]
+    cases PTST.get cmp st k <;> rfl
+  | remove k =>
+    obtain ⟨r1, r2, _⟩ := remove_commutes st tr h k mem
+    simp only [pstep, Table.step]
+    refine ⟨?_, r1, r2⟩
+    obtain ⟨t, hr, _⟩ := id h
+    rcases findNode_represents cmp hr k with ⟨p, x, c, e, l, m, r, f1, f2, f3, f4⟩ | ⟨f1, f2⟩
+    · obtain ⟨p', hx⟩ := Rep.sub_rep t 0 p hr.rep
+      rw [f2] at hx
+      have hd : (t.erase.sub p).data? = some e := by rw [← INode.erase_sub, f2]; rfl
+      simp only [f3, f4, if_false, hx.2.1, Option.map_some, absT, Table.remove, hr.toNode, f1, hd]
+    · simp only [f1, if_true, absT, Table.remove, hr.toNode]
+      rcases f2 with f2 | ⟨p, f2, f2'⟩
+      · simp [f2]
+      · simp [f2, f2']
+  | removeAll =>
+    obtain ⟨r1, r2, _⟩ := removeAll_commutes st tr h mem
+    exact ⟨rfl, r1, r2⟩
+  | size => exact ⟨rfl, rfl, h⟩
+  | enumerate =>
+    simp only [pstep, Table.step]
+    exact ⟨by rw [iterAll_refines st tr h mem], by triv, h⟩
+  | iterate prog =>
+    simp only [pstep, Table.step]
+    obtain ⟨a1, a2, a3, _⟩ := piter_program_refines (cmp := cmp) prog st tr (PTST.iterInit st) (TST.iterInit (absT st tr))
+      (toNode st).entriesP mem h (iter_init_commutes st tr h) (Or.inl ⟨rfl, iterInit_at (absT st tr)⟩)
+      (iterInit_curMarked (absT st tr))
+    exact ⟨by rw [a1], a2, a3⟩
+
+/-- **C11 at pointer level, all histories (every key, every refusal schedule).**  From any well-formed heap, running
+any history of add / get / contains_key / remove / remove_all / size / enumerations / whole iterator sessions on the
+pointer-level model returns, call by call, the statuses, out-values, enumerations and iterator results of the
+inductive model, ends in the heap that abstracts (`absT`) to the inductive model's final state, and that heap is
+well-formed.  The theorem holds for every history, hence for every prefix: **every reachable heap is `WF`** (parent
+pointers, tree shape, no dead branch, `size`, ordering). -/
+theorem phistory_refines (ops : List POp) : ∀ (st : PT) (tr : Triple) (mem : Mem), WF cmp st →
+    (prun tr cmp st ops).1 = ((absT st tr).run cmp ops mem).1 ∧
+    absT (prun tr cmp st ops).2 tr = ((absT st tr).run cmp ops mem).2.1 ∧
+    WF cmp (prun tr cmp st ops).2 := by
+  induction ops with
+  | nil => intro st tr mem h; exact ⟨rfl, rfl, h⟩
+  | cons op ops ih =>
+    intro st tr mem h
+    obtain ⟨s1, s2, s3⟩ := pstep_refines st tr h op mem
+    have := ih (pstep tr cmp st op).2 tr ((absT st tr).step cmp op mem).2.2 s3
+    rw [s2] at this
+    simp only [prun, Table.run]
+    exact ⟨by rw [s1, this.1], this.2.1, this.2.2⟩
+
+/-- the empty heap abstracts to the table the constructor returns -/
+theorem absT_new (tr : Triple) : absT ({} : PT) tr = ⟨0, .nil, tr⟩ := by
+  simp only [absT, (new_represents).toNode]; rfl
+
+/-- **C11 at pointer level from the constructor, against the ideal string map (keys ≠ "", X5).**  From `new`, under
+every refusal schedule, for every history that stays clear of the empty-key aliasing (`x5SafeRun`: sharper than
+"no empty key"; `new_phistory_refines_nonempty_partial` below states it with keys ≠ ""), the pointer-level run
+returns, call by call, what the ideal string map returns (statuses, values, enumerations up to order, iterator
+sessions as legal cursor runs), its final heap is well-formed and abstracts to a table whose content is the map's
+content, and the allocator ledger of the run is exact: header + one block per live heap node + one per entry. -/
+theorem new_phistory_refines_partial (hc : CmpLaw cmp) (tr : Triple) (m0 m1 : Mem) (t0 : Table)
+    (hnew : Table.new tr m0 = (.ok, some t0, m1)) (ops : List POp) (hk : C11.x5SafeRun cmp t0 ops m1) :
+    C11.OutsRel (prun tr cmp {} ops).1 (Spec.StrMap.empty.run (C11.flagged cmp t0 ops m1)).1 ∧
+    C11.Rel (absT (prun tr cmp {} ops).2 tr) (Spec.StrMap.empty.run (C11.flagged cmp t0 ops m1)).2 ∧
+    WF cmp (prun tr cmp {} ops).2 ∧ (absT (prun tr cmp {} ops).2 tr).Good cmp ∧
+    (t0.run cmp ops m1).2.2.fault = m0.fault ∧
+    (∃ ids : List Nat, ids.Nodup ∧ (∀ i, (prun tr cmp {} ops).2.heap.has i = true ↔ i ∈ ids) ∧
+      (t0.run cmp ops m1).2.2.liveT tr = m0.liveT tr + 1 + ids.length + (prun tr cmp {} ops).2.size) := by
+  have ht0 : t0 = absT ({} : PT) tr := by
+    have h := Table.new_spec tr m0
+    rw [hnew] at h
+    obtain ⟨h1, _, _⟩ := h
+    obtain ⟨h1a, _⟩ := h1 rfl
+    simp only [Option.some.injEq] at h1a
+    rw [h1a, absT_new]
+  obtain ⟨r1, r2, r3, r4, r5, _, _⟩ := C11.new_history_refines_partial hc tr m0 m1 t0 hnew ops hk
+  obtain ⟨p1, p2, p3⟩ := phistory_refines (cmp := cmp) ops {} tr m1 new_wf
+  rw [← ht0] at p1 p2
+  rw [p1, p2]
+  refine ⟨r1, r2, p3, r3, r4, ?_⟩
+  obtain ⟨t, hr, q1, _, _⟩ := id p3
+  refine ⟨t.ids, hr.nodup, hr.dom, ?_⟩
+  rw [r5, ← p2]
+  simp only [absT, Node.owned, hr.toNode, q1, INode.erase_nodes]
+  omega
+
+/-- the same with the exclusion spelled out on the keys: no call mentions the empty string -/
+theorem new_phistory_refines_nonempty_partial (hc : CmpLaw cmp) (tr : Triple) (m0 m1 : Mem) (t0 : Table)
+    (hnew : Table.new tr m0 = (.ok, some t0, m1)) (ops : List POp) (hk : ∀ op ∈ ops, [] ∉ op.keys) :
+    C11.OutsRel (prun tr cmp {} ops).1 (Spec.StrMap.empty.run (C11.flagged cmp t0 ops m1)).1 ∧
+    C11.Rel (absT (prun tr cmp {} ops).2 tr) (Spec.StrMap.empty.run (C11.flagged cmp t0 ops m1)).2 ∧
+    WF cmp (prun tr cmp {} ops).2 :=
+  let h := new_phistory_refines_partial hc tr m0 m1 t0 hnew ops (C11.x5SafeRun_of_nonempty ops hk t0 m1)
+  ⟨h.1, h.2.1, h.2.2.1⟩
+
+/-- **the ledger at history level**: in every reachable heap the live blocks are exactly the nodes of the trie
+(each once: `ids.Nodup`, as many as the inductive trie has nodes), and `destroy` (as `remove_all`) frees exactly those,
+each exactly once, leaving no block -/
+theorem phistory_ledger (ops : List POp) (st0 : PT) (tr : Triple) (h0 : WF cmp st0) :
+    (∃ ids : List Nat, ids.Nodup ∧ (∀ i, (prun tr cmp st0 ops).2.heap.has i = true ↔ i ∈ ids) ∧
+      ids.length = (toNode (prun tr cmp st0 ops).2).nodes) ∧
+    (∀ i, (PTST.destroy (prun tr cmp st0 ops).2).heap.has i = false) ∧
+    (PTST.destroy (prun tr cmp st0 ops).2).freed.Nodup ∧
+    (∀ i, i ∈ (PTST.destroy (prun tr cmp st0 ops).2).freed ↔ (prun tr cmp st0 ops).2.heap.has i = true) := by
+  obtain ⟨_, _, p3⟩ := phistory_refines (cmp := cmp) ops st0 tr {} h0
+  obtain ⟨t, hr, _⟩ := id p3
+  obtain ⟨_, _, d1, d2, d3⟩ := removeAll_commutes _ tr p3 {}
+  exact ⟨⟨t.ids, hr.nodup, hr.dom, by rw [hr.toNode, INode.erase_nodes]⟩, d1, d3, d2⟩
+
+/-- **iterator sessions against the ideal cursor (keys ≠ "")**: any `iter_init`; next / remove / query program on a
+well-formed heap whose keys spell their paths returns exactly the statuses and values of the ideal cursor — every
+yielded key is one the cursor had not yielded yet, `CC_ITER_END` comes exactly when none is left — the saved node
+ids stay live and the final heap is well-formed -/
+theorem piter_program_refines_map_partial (hc : CmpLaw cmp) (prog : List Spec.StrMap.IOp)
+    (hk : ∀ op ∈ prog, [] ∉ op.keys) (st : PT) (tr : Triple) (s : Spec.StrMap) (mem : Mem) (h : WF cmp st)
+    (hko : (toNode st).KeysOk) (hl : (absT st tr).Owns mem) (hr : C11.Rel (absT st tr) s) :
+    (piterRun cmp st (PTST.iterInit st) prog).1 =
+      (s.cursorRun (Spec.StrMap.cursorNew s)
+        (C11.iterChoices cmp (absT st tr) (TST.iterInit (absT st tr)) prog mem)).1.map (·.1) ∧
+    (∀ x ∈ (s.cursorRun (Spec.StrMap.cursorNew s)
+        (C11.iterChoices cmp (absT st tr) (TST.iterInit (absT st tr)) prog mem)).1, x.2 = true) ∧
+    WF cmp (piterRun cmp st (PTST.iterInit st) prog).2.1 ∧
+    (((piterRun cmp st (PTST.iterInit st) prog).2.2.cur = 0 ∨
+        (piterRun cmp st (PTST.iterInit st) prog).2.1.heap.has (piterRun cmp st (PTST.iterInit st) prog).2.2.cur = true) ∧
+     ((piterRun cmp st (PTST.iterInit st) prog).2.2.next = 0 ∨
+        (piterRun cmp st (PTST.iterInit st) prog).2.1.heap.has (piterRun cmp st (PTST.iterInit st) prog).2.2.next = true)) := by
+  have hg : (absT st tr).Good cmp := ⟨wf_inv st tr h, hko⟩
+  obtain ⟨a1, _, a3, _, a5⟩ := piter_program_refines (cmp := cmp) prog st tr (PTST.iterInit st) (TST.iterInit (absT st tr))
+    (toNode st).entriesP mem h (iter_init_commutes st tr h) (Or.inl ⟨rfl, iterInit_at (absT st tr)⟩)
+    (iterInit_curMarked (absT st tr))
+  obtain ⟨c1, c2, _⟩ := C11.iter_init_program_refines_partial hc prog hk (absT st tr) s mem hg hl hr
+  exact ⟨by rw [a1, c1], c2, a3, a5⟩
+
+/-! ## non-vacuity of the history theorems: a history from the empty heap with a refused `add` (second request of
+three), the same `add` granted, nested prefixes, an iterator session with a removal and a rejected second removal,
+an enumeration, `remove`, `remove_all` — evaluated on the inductive side by `decide`, transferred by
+`phistory_refines` (the kernel does not evaluate the hash-map heap) -/
+
+def demoOps : List POp :=
+  [.add [97, 98] 1 [false, true], .size, .add [97, 98] 1 [false, false, false], .add [97] 2 [], .add [97, 99] 3 [],
+   .iterate [.next, .remove true, .remove true, .next, .size], .enumerate, .get [97], .remove [97, 98], .contains [97, 99],
+   .removeAll, .size]
+
+example : (prun .conf cmpSigned {} demoOps).1 =
+    [{ st := some .errAlloc }, { val := some 0 }, { st := some .ok }, { st := some .ok }, { st := some .ok },
+     { iter := [{ st := .ok, key := some [97], val := some 2 }, { st := .ok, val := some 2 },
+                { st := .errKeyNotFound }, { st := .ok, key := some [97, 98], val := some 1 },
+                { st := .ok, val := some 2 }] },
+     { enum := [([97, 98], 1), ([97, 99], 3)] }, { st := some .errKeyNotFound }, { st := some .ok, val := some 1 },
+     { val := some 1 }, {}, { val := some 0 }] ∧
+    WF cmpSigned (prun .conf cmpSigned {} demoOps).2 ∧
+    absT (prun .conf cmpSigned {} demoOps).2 .conf = ⟨0, .nil, .conf⟩ := by
+  obtain ⟨p1, p2, p3⟩ := phistory_refines (cmp := cmpSigned) demoOps {} .conf {} new_wf
+  rw [absT_new] at p1 p2
+  refine ⟨?_, p3, ?_⟩
+  · rw [p1]; decide
+  · rw [p2]; decide
+
+/-- the hypotheses of the map-level theorem are satisfiable: the constructor succeeds and the history is X5-safe -/
+example : Table.new .conf {} = (.ok, some ⟨0, .nil, .conf⟩, { live := 1, nalloc := 1 }) ∧
+    C11.x5SafeRun cmpSigned ⟨0, .nil, .conf⟩ demoOps { live := 1, nalloc := 1 } := by
+  refine ⟨by decide, by decide⟩
 
 end CC.Properties.C11PTST
